@@ -10,6 +10,15 @@
 //   x start configuration (interior lattice point x 26 directions | near-boundary tangent
 //     family | start ON a boundary reached by linear move + cross, optional set_dir)
 //   x requested step x subdivision k in {1,2,5}
+// Fields: uniform along x / z / oblique (also with negative components) at 1 mT / 1 T / 100 T,
+// B = 0, UniformZField, RZMapField with uniform content, with smooth non-uniform content, and a
+// map that is SMALLER than the world (uniform inside, documented zero field outside).
+// Driver options: default, tight, loose, max_substeps 1/100, max_nsteps 3/1/10, bump_distance <
+// minimum_step, step-control exponents (thorough).
+// Steps: 0.5 minimum_step .. 1e3 radii, plus 1e-20 / 1e-15 (below the coordinate resolution:
+// zero-length chord) for head-on starts within minimum_step, on-boundary starts and one interior
+// start.  The (start, step) checkerboard colour depends on the block (radius, stepper/field), so
+// both colours of every pair are executed in each tier.
 // A "trajectory" is k consecutive propagations of step/k with a *fresh* propagator per call
 // (exactly what the along-step action does); a boundary that is hit is crossed and the
 // trajectory continues in the next volume, so on-boundary starts also arise naturally.
@@ -23,16 +32,29 @@
 //              volume id unchanged by the call
 //   member     off-boundary end point is not deeper than delta_intersection inside a foreign
 //              analytic region; on-boundary end point is within 1e-6 of the analytic surface of
-//              the volume it was travelling in
-//   helix      (uniform fields) end point AND end direction vs the long-double analytic helix
-//              through the start state at arc length = sum of returned distances, per call and
-//              cumulatively over the subdivided trajectory; tolerance: see TOLERANCE MODEL below
+//              the volume it was travelling in; a reported landing can be crossed
+//   helix      end point AND end direction vs the long-double analytic helix through the start
+//              state at arc length = sum of returned distances, per call and cumulatively over
+//              the subdivided trajectory; tolerance: see TOLERANCE MODEL below.  Applies to the
+//              uniform fields, to B = 0 (straight line) and to the small RZ map whenever the
+//              ball the call can reach lies entirely inside (helix) or outside (straight line)
 //   skip       32 samples of the analytic helix per call: no foreign region is deeper than
 //              delta_chord + dchord_tol + delta_intersection + (helix tolerance) inside
 //   factory    k = 1: make_mag_field_propagator on an identical second track slot must give
 //              bit-identical results to make_mag_field_stepper + make_field_propagator, which is
 //              what all other calls use so that stepper applications can be counted
+//   rzmap      RZMapField::operator() at geometry points, their mirror images, the axis, a lattice
+//              over and beyond each map, map edges and grid lines +-1 ulp vs a long-double
+//              re-interpolation of the input tables (case ids rzmap=rzu|rzs|rzi)
+//   nolimit    FieldPropagator::operator()() from interior starts (case ids nolimit:...)
 //   zhx        ZHelixStepper single steps inside / outside the configuration of its unit test
+//
+// Small max_nsteps (option sets nsteps1/3/10): every stepper application is recorded and
+// FieldDriver::advance is replayed on the record (analyse_trace).  A violation is attributed to
+// "find_next_chord / one_good_step ran out of trials and returned a step with the state of
+// another trial" ONLY when that exit was observed in the judged call; the oracle stays in the
+// signature:  driver:<mechanism>-step-and-state-disagree[<oracle signature>].  Everything else
+// in those option sets is reported under its real signature.
 //
 // Case ids:  block id  "g=<geom>;sf=<stepper:field>;q=<+|->;r=<ratio idx>;o=<options>"
 //            full id   block id + ";c=<start cfg>;s=<step idx>;k=<k>"
